@@ -160,10 +160,10 @@ T_RReport == /\ IsEv("r_report") /\ RNoPanic
              /\ res' = E.res /\ FileUnch
 
 T_RRaw == /\ IsEv("r_raw") /\ RNoPanic
-          /\ ChkP(IsOk(E.res), {"C01"}, "raw-read-failed")
+          /\ ChkP(IsOk(E.res), {"C01", "C12"}, "raw-read-failed")
           /\ IsOk(E.res) =>
-               /\ ChkP(E.res.end = 1 /\ Len(E.res.ok) = Len(sc.pcs[E.pc].pts), {"C01"}, "number-of-points-read")
-               /\ ChkP(E.res.ok = sc.pcs[E.pc].pts, {"C01"}, "points-read-differ")
+               /\ ChkP(E.res.end = 1 /\ Len(E.res.ok) = Len(sc.pcs[E.pc].pts), {"C01", "C12"}, "number-of-points-read")
+               /\ ChkP(E.res.ok = sc.pcs[E.pc].pts, {"C01", "C12"}, "points-read-differ")
           /\ res' = E.res /\ FileUnch
 
 AllBlobs == sc.blobs
